@@ -204,6 +204,18 @@ def run(ctx, ck):
     for g, s, pr in sites:
         nn, dd = pr.texts()
         ok = abs(pr.coef - 1e-3) < 1e-15 and len(nn) == 1 and nn[0].endswith('min_seglen') and not dd
+        # the shortest segment of the whole structure (Mininec / Geo_Container), not of one object
+        if ok:
+            fac = [x for t, x in pr.num][0]
+            rt = prog.type_of(fac.value, prog.env[g.qual], g) if isinstance(fac, ast.Attribute) else None
+            from ..resolve import classes_of
+            cls = classes_of(rt) if rt is not None else []
+            glob = bool(cls) and set(cls) <= {'Mininec', 'Geo_Container'}
+            if not glob:
+                ck.ob('R-LIT.tolerance', '%s|%s|global' % (g.qual, norm(s.targets[0])), False, g.loc(s),
+                      'tolerance is taken from %s (an attribute of %s): the matching tolerance must be 1/1000 of '
+                      'the shortest segment of the whole structure' % (norm(fac), cls or 'an unresolved receiver'))
+                continue
         ck.ob('R-LIT.tolerance', '%s|%s' % (g.qual, norm(s.targets[0])), ok, g.loc(s),
               'tolerance = %r * %s' % (pr.coef, nn))
     ck.ob('R-LIT.tolerance', 'all-equal', len(coefs) == 1, f.loc(), 'tolerance literals used: %s' % sorted(coefs))
